@@ -79,13 +79,22 @@ func calculateCurrentAge(
 	}
 	apparentAge := max(responseTime.Sub(date), 0)
 	responseDelay := max(responseTime.Sub(requestTime), 0)
-	correctedAgeValue := time.Duration(ageVal)*time.Second + responseDelay
+	correctedAgeValue := AddSaturating(time.Duration(ageVal)*time.Second, responseDelay)
 	correctedInitialAge := max(apparentAge, correctedAgeValue)
 	residentTime := max(clock.Since(responseTime), 0)
 	return &Age{
-		Value:     correctedInitialAge + residentTime,
+		Value:     AddSaturating(correctedInitialAge, residentTime),
 		Timestamp: clock.Now(),
 	}
+}
+
+// AddSaturating adds two non-negative durations; on overflow the result is the
+// largest duration instead of a negative one (RFC9111 §1.2.2).
+func AddSaturating(a, b time.Duration) time.Duration {
+	if sum := a + b; sum >= a || b < 0 {
+		return sum
+	}
+	return maxDuration
 }
 
 const maxDuration = 1<<63 - 1
@@ -184,7 +193,7 @@ func (f *freshnessCalculator) CalculateFreshness(
 
 	isStale := currentAge.Value >= usefulLife
 	// If max-stale present, allow extra staleness
-	if isStale && maxStale > 0 && currentAge.Value < max(usefulLife+maxStale, maxStale) {
+	if isStale && maxStale > 0 && currentAge.Value < AddSaturating(usefulLife, maxStale) {
 		isStale = false
 	}
 
